@@ -1,6 +1,8 @@
 import LeptosModel.Model.Keyed
 import LeptosModel.Proofs.KeyedSummary
 import LeptosModel.Proofs.KeyedFinal
+import LeptosModel.Proofs.KeyedBuild
+import LeptosModel.Proofs.KeyedExact
 /-!
 # C11 — keyed lists keep item identity and end in the new order
 
@@ -16,10 +18,12 @@ arbitrary block sizes (every item owns ≥ 1 node).  Lemmas: `Proofs/Keyed*.lean
 
 | theorem | status |
 |---|---|
+| `C11_build_wf` | full (`build` + `mount` establish `Wf` and `Mounted`) |
 | `C11_unpack_complete`, `C11_unpack_complete_diff`, `C11_group_complete` | full |
 | `C11_storage_is_to`, `C11_identity`, `C11_identity_nodes_leave`, `C11_set_index` | full |
 | `C11_dom_order_full` | refuted: `C11_dom_order_witness` (`[0,1,2] → [4,3,2,1,0]`, F-C11-1) |
 | `C11_dom_order_partial` | under `settledMonotone s.hashed to` (decidable; negation = known-finding class) |
+| `C11_dom_order_iff` | full: the order is right IFF `settledMonotone` (the hypothesis is exact) |
 | `C11_history` | full (storage / identity / set_index at every step of every history) |
 | `C11_history_dom_order_partial` | under `settledHistory` (= `settledMonotone` at every step) |
 -/
@@ -50,6 +54,17 @@ theorem C11_group_complete (ms : List DiffOpMove) (h : ∀ m ∈ ms, m.len = 1) 
 
 example : ∃ d : Diff, (∀ m ∈ d.moved, 1 ≤ m.len) ∧ d.itemsToMove = sumLens d.moved ∧ d.moved ≠ [] :=
   ⟨diff [0, 1, 2, 3] [2, 3, 0, 1], by decide⟩
+
+/-! ## the states the theorems are about -/
+
+/-- `Keyed::build` followed by `KeyedState::mount(parent, None)` yields a state that satisfies every
+hypothesis used below: for any duplicate-free keys, any block size ≥ 1, any (duplicate-free) children
+already in the parent — they become the `pre` siblings. (`post` siblings are whatever is appended to
+the parent afterwards; `rebuild` preserves `Wf` always and `Mounted` under `settledMonotone`.) -/
+theorem C11_build_wf (bs : Nat) (keys : List Key) (kids : List NodeId) (next : Nat) (hbs : 0 < bs)
+    (hk : keys.Nodup) (hkids : kids.Nodup) (hfr : ∀ n ∈ kids, n < next) :
+    Wf ((build bs keys kids next).mount none) ∧ Mounted kids [] ((build bs keys kids next).mount none) :=
+  build_mount_wf bs keys kids next hbs hk hkids hfr
 
 /-! ## storage, identity, set_index -/
 
@@ -172,6 +187,18 @@ theorem C11_dom_order_partial (s : KState) (to : List Key) (pre post : List Node
       = pre ++ blocksOf (rebuild s to).w.storage ++ (rebuild s to).marker :: post ∧
     Mounted pre post (rebuild s to) :=
   ⟨(rebuild_mounted s to pre post hs hm hto hsm).ordered, rebuild_mounted s to pre post hs hm hto hsm⟩
+
+/-- **the hypothesis is exact**: for a list mounted in order, the children end in the new order IF AND
+ONLY IF `settledMonotone` holds — so `C11_dom_order_partial` is the strongest partial statement there
+is, and the known-finding class `dom-order-move-elided` (its negation) contains exactly the
+transitions the code gets wrong, no others. (The items that are neither removed nor re-inserted never
+change their relative order among the children.) -/
+theorem C11_dom_order_iff (s : KState) (to : List Key) (pre post : List NodeId) (hs : Wf s)
+    (hm : Mounted pre post s) (hto : to.Nodup) :
+    (rebuild s to).w.kids
+        = pre ++ blocksOf (rebuild s to).w.storage ++ (rebuild s to).marker :: post
+      ↔ settledMonotone s.hashed to = true :=
+  rebuild_ordered_iff s to pre post hs hm hto
 
 /-- non-vacuity: a mounted list with siblings on both sides and two-node items; an update that moves,
 adds and removes and satisfies the hypothesis -/
